@@ -423,6 +423,39 @@ impl<'a> G<'a> {
     }
 }
 
+/// A bind whose closure returns the same outer node on every run and, on the side, memoises a
+/// constructor and hands out one of its nodes; the node is observed, then the bind re-runs.
+fn skeleton_local_memo(g: &mut G, actions: &mut Vec<Action>) {
+    const LAST: usize = usize::MAX;
+    const LAST_BIND: usize = usize::MAX - 1;
+    const LAST_EXPORTED: usize = usize::MAX - 2;
+    actions.push(Action::NewVar { init: 0 });
+    let k = g.val();
+    let body = BodySpec {
+        alts: vec![BodyExpr::Outer(0)],
+        outers: vec![OuterSel::Any(g.idx())],
+        export: true,
+        temp: false,
+        side: Some(Box::new(BodyExpr::LocalMemo { k })),
+        via: 0,
+        fx: vec![],
+    };
+    actions.push(Action::NewBind { lhs: LAST, body });
+    actions.push(Action::Observe { node: LAST_BIND, pool: Pool::I });
+    actions.push(Action::Stabilise);
+    actions.push(Action::Observe { node: LAST_EXPORTED, pool: Pool::I });
+    actions.push(Action::Stabilise);
+    actions.push(Action::Write { var: LAST, op: WriteOp::Update(F1::Inc) });
+    actions.push(Action::Stabilise);
+    if g.r.chance(1, 2) {
+        actions.push(Action::Write { var: g.idx(), op: g.write_op() });
+        actions.push(Action::Stabilise);
+    }
+    g.ni += 2;
+    g.nvars += 1;
+    g.nobs += 2;
+}
+
 /// A bind whose right-hand side is a node that exists outside it, in two variants.
 /// (a) The bind and its dependant are disconnected while the outer node stays observed; the
 /// outer node's value moves away and back; the dependant is re-observed: nothing changed for it.
@@ -649,7 +682,16 @@ pub fn gen_plan(seed: u64, p: &Profile) -> Plan {
     let mut mapref_done = false;
     let outer_rhs_at = if g.r.chance(p.outer_rhs_skeleton_pct, 100) { Some(actions.len() + g.r.below(n_actions.max(actions.len() + 1) - actions.len())) } else { None };
     let mut outer_rhs_done = false;
+    let local_memo_at = if p.w_memo > 0 && g.r.chance(8, 100) { Some(actions.len() + g.r.below(n_actions.max(actions.len() + 1) - actions.len())) } else { None };
+    let mut local_memo_done = false;
     while actions.len() < n_actions {
+        if let Some(at) = local_memo_at {
+            if !local_memo_done && actions.len() >= at {
+                local_memo_done = true;
+                skeleton_local_memo(&mut g, &mut actions);
+                continue;
+            }
+        }
         if let Some(at) = outer_rhs_at {
             if !outer_rhs_done && actions.len() >= at {
                 outer_rhs_done = true;
